@@ -25,7 +25,9 @@ COMPONENTS = {
              "_synchronization)", "h11", "h2/hpack/hyperframe (client side)", "socksio",
              "anyio primitives", "asyncio Task/Future machinery", "real OS threads (sync)"],
     "stub": ["event-loop scheduling policy and clock (SimLoop)", "thread scheduler and "
-             "threading.Lock/Event/Semaphore (baton passing)", "network backend (seam L1)",
+             "threading.Lock/Event/Semaphore (baton passing)", "network backend (seam L1; in the "
+             "L2 families the real AnyIOBackend / TrioBackend / SyncBackend run above fake "
+             "anyio / trio streams and fake sockets)",
              "all peers: origin servers, HTTP proxies, SOCKS5 proxy", "TLS cryptography "
              "(absent; TLS is a transparent recorded layer)"],
 }
